@@ -9,6 +9,12 @@
 #include "world.h"
 
 #include <unistd.h>
+#include <fcntl.h>
+#include <signal.h>
+#include <sys/types.h>
+#include <sys/wait.h>
+#include <sys/stat.h>
+#include <fstream>
 #include <cstdio>
 #include <cstdlib>
 #include <cstring>
@@ -24,6 +30,11 @@ extern int mmMain(int argc, char** argv);
 extern "C" __attribute__((used)) const char* __asan_default_options()
 {
     return "exitcode=77:detect_leaks=0:alloc_dealloc_mismatch=0:abort_on_error=0:allocator_may_return_null=1";
+}
+
+extern "C" __attribute__((used)) const char* __ubsan_default_options()
+{
+    return "print_stacktrace=1:halt_on_error=1";
 }
 
 static std::string jsonEscape(const std::string &s)
@@ -141,6 +152,166 @@ static void evalPlan(const Plan &P, RunResult &R)
     }
 }
 
+
+// ----------------------------------------------------------------------
+// Process isolation.  Every evaluation of a plan happens in a forked child:
+// the parent never touches the library, so each run starts from the same
+// pristine process image (no state survives from one run to the next), a
+// crash costs exactly one run, and the gate / the minimiser can re-execute a
+// plan that corrupted the heap.  The child reports through a pipe; its
+// stderr (sanitizer report) goes to a scratch file the parent classifies.
+// ----------------------------------------------------------------------
+static void printResult(FILE* out, long idx, const Plan &P, const RunResult &R,
+        const std::string &replay, double secs);
+
+struct IsoResult {
+    bool ok = true;
+    bool crashed = false;
+    bool hung = false;
+    std::string cls, detail;
+    int step = -1;
+    uint64_t hash = 0;
+    std::string line;       // JSON result line produced by the child (no newline)
+    std::string errtext;    // what the child wrote to stderr (trace, sanitizer report)
+};
+
+static std::string g_scratch = "/tmp";
+static int g_step_timeout = 120;
+
+static std::string readFile(const std::string &p)
+{
+    std::ifstream f(p);
+    std::stringstream ss; ss << f.rdbuf();
+    return ss.str();
+}
+
+// first in-library frame of a sanitizer report
+static std::string crashSignature(const std::string &err, int status)
+{
+    std::string kind = "signal";
+    size_t p = err.find("ERROR: AddressSanitizer: ");
+    if (p != std::string::npos) {
+        size_t e = err.find_first_of(" \n", p + 25);
+        kind = "asan-" + err.substr(p + 25, e - (p + 25));
+    } else if ((p = err.find("runtime error: ")) != std::string::npos) {
+        size_t e = err.find('\n', p);
+        kind = "ubsan-" + err.substr(p + 15, std::min<size_t>(e - (p + 15), 28));
+        for (char &c : kind) if (c == ' ' || c == '\'' || c == '"') c = '_';
+    } else if (WIFSIGNALED(status)) {
+        kind = "signal-" + std::to_string(WTERMSIG(status));
+    } else if (WIFEXITED(status)) {
+        kind = "exit-" + std::to_string(WEXITSTATUS(status));
+    }
+    std::string frame = "?";
+    size_t q = 0;
+    while ((q = err.find(" in ", q)) != std::string::npos) {
+        size_t e = err.find_first_of(" \n(", q + 4);
+        std::string fn = err.substr(q + 4, e - (q + 4));
+        q = e;
+        if (fn.find("MEDDLY::") == 0) { frame = fn; break; }
+    }
+    return kind + "@" + frame;
+}
+
+static std::string jsonField(const std::string &line, const std::string &key)
+{
+    std::string k = "\"" + key + "\":";
+    size_t p = line.find(k);
+    if (p == std::string::npos) return "";
+    p += k.size();
+    if (line[p] == '"') {
+        std::string o;
+        for (size_t i = p + 1; i < line.size(); i++) {
+            if (line[i] == '\\' && i + 1 < line.size()) { o += (line[i+1] == 'n') ? '\n' : line[i+1]; i++; continue; }
+            if (line[i] == '"') break;
+            o += line[i];
+        }
+        return o;
+    }
+    size_t e = line.find_first_of(",}", p);
+    return line.substr(p, e - p);
+}
+
+static void evalIsolated(const Plan &P, long idx, IsoResult &I)
+{
+    I = IsoResult();
+    int fds[2];
+    if (pipe(fds) != 0) { perror("pipe"); exit(2); }
+    char errpath[512];
+    snprintf(errpath, sizeof errpath, "%s/.err.%d", g_scratch.c_str(), int(getpid()));
+    fflush(stdout); fflush(stderr);
+    pid_t pid = fork();
+    if (pid < 0) { perror("fork"); exit(2); }
+    if (pid == 0) {
+        close(fds[0]);
+        int efd = open(errpath, O_WRONLY | O_CREAT | O_TRUNC, 0644);
+        if (efd >= 0) { dup2(efd, 2); close(efd); }
+        // the library prints to stdout here and there (iterator move ctor)
+        int nul = open("/dev/null", O_WRONLY);
+        if (nul >= 0) { dup2(nul, 1); close(nul); }
+        FILE* out = fdopen(fds[1], "w");
+        auto a = std::chrono::steady_clock::now();
+        RunResult R;
+        evalPlan(P, R);
+        double secs = std::chrono::duration<double>(std::chrono::steady_clock::now() - a).count();
+        printResult(out, idx, P, R, "", secs);
+        fflush(out);
+        _exit(0);
+    }
+    close(fds[1]);
+    std::string buf;
+    char tmp[4096];
+    // read with a wall-clock cap (hang detection)
+    // real clock of the supervisor only (libc time() is the simulated clock)
+    struct timespec ts0; clock_gettime(CLOCK_MONOTONIC, &ts0);
+    fcntl(fds[0], F_SETFL, O_NONBLOCK);
+    for (;;) {
+        ssize_t n = read(fds[0], tmp, sizeof tmp);
+        if (n > 0) { buf.append(tmp, size_t(n)); continue; }
+        if (n == 0) break;
+        if (errno == EAGAIN || errno == EINTR) {
+            struct timespec ts = { 0, 2000000 };
+            nanosleep(&ts, nullptr);
+            struct timespec now; clock_gettime(CLOCK_MONOTONIC, &now);
+            if (now.tv_sec - ts0.tv_sec > g_step_timeout) { I.hung = true; kill(pid, SIGKILL); break; }
+            continue;
+        }
+        break;
+    }
+    close(fds[0]);
+    int status = 0;
+    waitpid(pid, &status, 0);
+    size_t nl = buf.find('\n');
+    if (nl != std::string::npos) buf.resize(nl);
+    if (!I.hung && !buf.empty() && buf[0] == '{' && WIFEXITED(status) && WEXITSTATUS(status) == 0) {
+        I.line = buf;
+    }
+    if (!I.line.empty()) {
+        I.ok = (jsonField(buf, "ok") == "true");
+        I.cls = jsonField(buf, "cls");
+        I.detail = jsonField(buf, "detail");
+        I.step = atoi(jsonField(buf, "step").c_str());
+        I.hash = strtoull(jsonField(buf, "hash").c_str(), nullptr, 16);
+    }
+    I.errtext = readFile(errpath);
+    if (I.line.empty()) {
+        I.ok = false;
+        I.crashed = true;
+        const std::string &err = I.errtext;
+        if (I.hung) { I.cls = "HANG:run"; I.detail = "a step did not return within the wall-clock cap"; }
+        else {
+            I.cls = "CRASH:" + crashSignature(err, status);
+            I.detail = err.substr(0, 1500);
+        }
+    }
+    unlink(errpath);
+}
+
+static bool sameFailureIso(const IsoResult &R, const std::string &cls)
+{
+    return !R.ok && R.cls == cls;
+}
+
 static void printResult(FILE* out, long idx, const Plan &P, const RunResult &R,
         const std::string &replay, double secs)
 {
@@ -176,41 +347,59 @@ static void printResult(FILE* out, long idx, const Plan &P, const RunResult &R,
     fflush(out);
 }
 
-static bool sameFailure(const RunResult &R, const std::string &cls)
-{
-    return !R.ok && R.cls == cls;
-}
-
 // greedy minimisation: drop chunks of steps, then single steps, then
-// strip faults; keep a change while the same failure class persists
+// strip faults, then simplify the configuration; keep a change while the
+// same failure class persists.  Every candidate runs in its own process.
 static void shrinkPlan(Plan &P, const std::string &cls, int budget)
 {
+    auto still = [&](const Plan &Q) {
+        IsoResult R; evalIsolated(Q, -1, R); budget--;
+        return sameFailureIso(R, cls);
+    };
     size_t chunk = P.steps.size() / 2;
     while (chunk >= 1 && budget > 0) {
         bool any = false;
         for (size_t i = 0; i + chunk <= P.steps.size() && budget > 0; ) {
             Plan Q = P;
             Q.steps.erase(Q.steps.begin() + long(i), Q.steps.begin() + long(i + chunk));
-            RunResult R; evalPlan(Q, R); budget--;
-            if (sameFailure(R, cls)) { P = Q; any = true; }
+            if (still(Q)) { P = Q; any = true; }
             else i += chunk;
         }
         if (chunk == 1 && !any) break;
         if (chunk > 1) chunk /= 2;
     }
     // strip faults
-    for (size_t i = 0; i < P.steps.size() && budget > 0; i++) {
-        if (!P.steps[i].drop) continue;
-        Plan Q = P;
-        Q.steps[i].drop = 0;
-        RunResult R; evalPlan(Q, R); budget--;
-        if (sameFailure(R, cls)) P = Q;
-    }
-    // knobs to shipped values
     {
-        Plan Q = P; Q.cfg.ct_min = 0; Q.cfg.handle_start = 0; Q.cfg.ct_max = 16777216;
-        RunResult R; evalPlan(Q, R);
-        if (sameFailure(R, cls)) P = Q;
+        Plan Q = P;
+        bool had = false;
+        for (Step &s : Q.steps) { if (s.drop || s.dropk) had = true; s.drop = 0; s.dropk = 0; }
+        if (had && budget > 0 && still(Q)) P = Q;
+        else for (size_t i = 0; i < P.steps.size() && budget > 0; i++) {
+            if (!P.steps[i].drop && !P.steps[i].dropk) continue;
+            Plan Q2 = P;
+            Q2.steps[i].drop = 0; Q2.steps[i].dropk = 0;
+            if (still(Q2)) P = Q2;
+        }
+    }
+    // knobs to shipped values, one at a time
+    if (budget > 0) { Plan Q = P; Q.cfg.ct_min = 0; Q.cfg.ct_max = 16777216; if ((Q.cfg.ct_min != P.cfg.ct_min || Q.cfg.ct_max != P.cfg.ct_max) && still(Q)) P = Q; }
+    if (budget > 0) { Plan Q = P; Q.cfg.handle_start = 0; if (P.cfg.handle_start && still(Q)) P = Q; }
+    if (budget > 0) { Plan Q = P; Q.cfg.monitor_mm = 0; if (P.cfg.monitor_mm && still(Q)) P = Q; }
+    if (budget > 0) { Plan Q = P; Q.cfg.ct_huge = 0; Q.cfg.ct_compress = 1; Q.cfg.ct_stale = 1; Q.cfg.ct_style = 1;
+        if ((P.cfg.ct_huge || P.cfg.ct_compress != 1 || P.cfg.ct_stale != 1 || P.cfg.ct_style != 1) && still(Q)) P = Q; }
+    // default policies per forest
+    for (size_t i = 0; i < P.cfg.forests.size() && budget > 0; i++) {
+        Plan Q = P;
+        ForSpec &f = Q.cfg.forests[i];
+        if (f.storage == 3 && f.del == 1 && f.mm == 1) continue;
+        f.storage = 3; f.del = 1; f.mm = 1;
+        if (still(Q)) P = Q;
+    }
+    // a second pass over single steps (configuration changes may have freed some)
+    for (size_t i = 0; i < P.steps.size() && budget > 0; ) {
+        Plan Q = P;
+        Q.steps.erase(Q.steps.begin() + long(i));
+        if (still(Q)) P = Q; else i++;
     }
 }
 
@@ -243,48 +432,54 @@ int main(int argc, char** argv)
         const long stride = atol(argval(argc, argv, "--stride", "1"));
         const double maxsecs = atof(argval(argc, argv, "--maxsecs", "1e9"));
         const std::string rdir = argval(argc, argv, "--replays", "replays");
-        const std::string tag = argval(argc, argv, "--tag", "w");
-        const std::string cur = rdir + "/.cur." + tag + ".plan";
+        const int shrinkBudget = atoi(argval(argc, argv, "--shrink", "300"));
+        const long maxfail = atol(argval(argc, argv, "--maxfail", "4"));
+        g_scratch = rdir;
+        long nfail = 0;
         auto t0 = std::chrono::steady_clock::now();
         for (long i = start; i < count; i += stride) {
             Plan P;
             const uint64_t rs = mix64(mix64(seed, hash_str(go.prop.c_str())), uint64_t(i));
             generatePlan(rs, go, P);
-            // the plan about to run, for the supervisor if this process dies
-            P.write(cur);
-            printf("{\"begin\":%ld}\n", i);
-            auto a = std::chrono::steady_clock::now();
-            RunResult R;
-            evalPlan(P, R);
-            std::string replay;
-            if (!R.ok) {
-                // same-seed-twice gate
-                RunResult R2; evalPlan(P, R2);
-                if (R2.ok || R2.cls != R.cls || R2.hash != R.hash) {
+            IsoResult R;
+            evalIsolated(P, i, R);
+            if (R.ok) {
+                printf("%s\n", R.line.c_str());
+            } else {
+                // same-plan-twice gate (fresh process each time)
+                IsoResult R2; evalIsolated(P, i, R2);
+                if (R2.ok || R2.cls != R.cls || (!R.crashed && R2.hash != R.hash)) {
                     printf("{\"run\":%ld,\"nondeterministic\":true,\"cls\":\"%s\",\"cls2\":\"%s\"}\n",
-                        i, jsonEscape(R.cls).c_str(), jsonEscape(R2.cls).c_str());
+                        i, jsonEscape(R.cls).c_str(), jsonEscape(R2.ok ? "clean" : R2.cls).c_str());
                     fflush(stdout);
-                    return 2;
+                    continue;
                 }
                 Plan M = P;
-                shrinkPlan(M, R.cls, 400);
-                RunResult RM; evalPlan(M, RM);
+                if (nfail < maxfail) shrinkPlan(M, R.cls, shrinkBudget);
+                nfail++;
+                IsoResult RM;
+                setenv("SIM_TRACE", "1", 1);
+                evalIsolated(M, i, RM);
+                if (RM.ok || RM.cls != R.cls) { M = P; evalIsolated(M, i, RM); }
+                unsetenv("SIM_TRACE");
+                M.story = "violation class " + RM.cls + "\n" + RM.errtext.substr(0, 6000);
+                if (!RM.crashed) M.story += "=> " + RM.detail;
                 M.expect_class = RM.cls;
-                M.expect_hash = RM.hash;
+                M.expect_hash = RM.crashed ? 0 : RM.hash;
                 char nm[256];
                 snprintf(nm, sizeof nm, "%s/%s_%llu_%ld.plan", rdir.c_str(), go.prop.c_str(),
                     (unsigned long long) seed, i);
                 M.write(nm);
-                replay = nm;
-                R.detail = RM.detail;
-                R.step = RM.step;
+                printf("{\"run\":%ld,\"seed\":%llu,\"prop\":\"%s\",\"ok\":false,\"crashed\":%s,\"cls\":\"%s\",\"detail\":\"%s\","
+                    "\"step\":%d,\"hash\":\"%016llx\",\"replay\":\"%s\",\"nsteps\":%zu,\"min_steps\":%zu}\n",
+                    i, (unsigned long long) P.seed, go.prop.c_str(), RM.crashed ? "true" : "false",
+                    jsonEscape(RM.cls).c_str(), jsonEscape(RM.detail).c_str(), RM.step,
+                    (unsigned long long) RM.hash, nm, P.steps.size(), M.steps.size());
             }
-            double secs = std::chrono::duration<double>(std::chrono::steady_clock::now() - a).count();
-            printResult(stdout, i, P, R, replay, secs);
+            fflush(stdout);
             double el = std::chrono::duration<double>(std::chrono::steady_clock::now() - t0).count();
             if (el > maxsecs) break;
         }
-        unlink(cur.c_str());
         printf("{\"done\":true}\n");
         return 0;
     }
@@ -292,9 +487,18 @@ int main(int argc, char** argv)
     if (cmd == "replay" && argc >= 3) {
         Plan P;
         if (!P.read(argv[2])) { fprintf(stderr, "cannot read %s\n", argv[2]); return 2; }
-        RunResult R;
-        evalPlan(P, R);
-        printf("%s", "");
+        if (argflag(argc, argv, "--inprocess")) {
+            // for debuggers: no fork, failure text on stdout, sanitizer aborts as usual
+            RunResult R;
+            if (argflag(argc, argv, "--trace")) setenv("SIM_TRACE", "1", 1);
+            evalPlan(P, R);
+            if (R.ok) { printf("REPLAY clean hash=%016llx\n", (unsigned long long) R.hash); return 0; }
+            printf("REPLAY failure class=%s step=%d hash=%016llx\n  %s\n", R.cls.c_str(), R.step,
+                (unsigned long long) R.hash, R.detail.c_str());
+            return 1;
+        }
+        IsoResult R;
+        evalIsolated(P, 0, R);
         if (R.ok) {
             printf("REPLAY clean hash=%016llx steps=%zu\n", (unsigned long long) R.hash, P.steps.size());
             return P.expect_class.empty() ? 0 : 2;
@@ -312,15 +516,42 @@ int main(int argc, char** argv)
     if (cmd == "shrink" && argc >= 4) {
         Plan P;
         if (!P.read(argv[2])) return 2;
-        RunResult R; evalPlan(P, R);
+        IsoResult R; evalIsolated(P, 0, R);
         if (R.ok) { printf("plan does not fail\n"); return 0; }
-        shrinkPlan(P, R.cls, 600);
-        RunResult RM; evalPlan(P, RM);
+        shrinkPlan(P, R.cls, 800);
+        IsoResult RM;
+        setenv("SIM_TRACE", "1", 1);
+        evalIsolated(P, 0, RM);
+        unsetenv("SIM_TRACE");
+        P.story = "violation class " + RM.cls + "\n" + RM.errtext.substr(0, 6000);
+        if (!RM.crashed) P.story += "=> " + RM.detail;
         P.expect_class = RM.cls;
-        P.expect_hash = RM.hash;
+        P.expect_hash = RM.crashed ? 0 : RM.hash;
         P.write(argv[3]);
-        printf("shrunk to %zu steps, class %s\n", P.steps.size(), RM.cls.c_str());
+        printf("shrunk to %zu steps, class %s\n  %s\n", P.steps.size(), RM.cls.c_str(), RM.detail.substr(0, 600).c_str());
         return 1;
+    }
+
+    if (cmd == "det") {
+        // determinism proof helper: run each plan twice in separate processes
+        GenOptions go;
+        go.prop = argval(argc, argv, "--prop", "C01");
+        go.thorough = argflag(argc, argv, "--thorough");
+        const uint64_t seed = strtoull(argval(argc, argv, "--seed", "1"), nullptr, 10);
+        const long start = atol(argval(argc, argv, "--start", "0"));
+        const long count = atol(argval(argc, argv, "--count", "100"));
+        const long stride = atol(argval(argc, argv, "--stride", "1"));
+        g_scratch = argval(argc, argv, "--replays", "replays");
+        for (long i = start; i < count; i += stride) {
+            Plan P;
+            const uint64_t rs = mix64(mix64(seed, hash_str(go.prop.c_str())), uint64_t(i));
+            generatePlan(rs, go, P);
+            IsoResult R; evalIsolated(P, i, R);
+            printf("{\"run\":%ld,\"ok\":%s,\"cls\":\"%s\",\"hash\":\"%016llx\"}\n", i, R.ok ? "true" : "false",
+                jsonEscape(R.cls).c_str(), (unsigned long long) R.hash);
+            fflush(stdout);
+        }
+        return 0;
     }
 
     if (cmd == "gen") {
